@@ -274,7 +274,7 @@ def check_tdc_formula(tier, seed):
 # ----------------------------------------------------------------------------------------------------------
 def _q32(q):
     """the float32 rounding of an exact q-value (only used to NAME the class of a mismatch)"""
-    return Fraction(float(np.float32(float(q))))
+    return float(np.float32(float(q)))
 
 
 def _labels_one(scores, lab, desc, fdr, want_q, as_series=False):
@@ -292,7 +292,7 @@ def _labels_one(scores, lab, desc, fdr, want_q, as_series=False):
     nontrivial = len(set(want)) > 1
     if got.shape != (len(want),):
         return "shape", "returned shape %r" % (got.shape,), nontrivial
-    thr = Fraction(float(fdr))
+    thr = float(fdr)
     for i, (w, g) in enumerate(zip(want, got.tolist())):
         if w == g:
             continue
@@ -363,8 +363,8 @@ def check_update_labels(tier, seed):
         "the smallest; for n <= 4 also %s and both float64 neighbours of every attained q-value, for n >= 5 one of "
         "each (rotating); random: %d vectors (seed %d) of length 7..80 with ties, 6 such eval_fdr values each"
         % (nmax, [round(f, 4) for f in FIXED_FDRS], n_rand, seed),
-        "expected label: -1 decoy, +1 target whose exact rational q-value (oracle, not tdc) is <= the exact value of "
-        "the float eval_fdr, 0 otherwise; non-trivial = the expected label vector has at least two distinct values")
+        "expected label: -1 decoy, +1 target whose exact rational q-value (oracle, not tdc), rounded to the nearest "
+        "double, is <= eval_fdr, 0 otherwise; non-trivial = the expected label vector has at least two distinct values")
     jobs = []
     for n in range(1, nmax + 1):
         for part in _chunks(weak_orderings(n), 12 if n >= 5 else 100):
